@@ -722,4 +722,121 @@ theorem gen_wrapper_instances :
 
 end WrapperGen
 
+section Audit
+/-! ## Audit (g27): the spec predicates of the `…_rejects_iff` theorems are inhabited and refutable by concrete objects; iffs used in both directions; rank-0 corner cases -/
+
+/-- the spec predicates on the right-hand sides of the `…_rejects_iff` theorems are inhabited AND refutable by concrete
+non-trivial objects, independently of the constructor models -/
+theorem compat_audit_instances :
+    ConcatCompatible [[2, 3], [2, 4]] (-1) ∧ ¬ ConcatCompatible [[2, 3], [1, 3]] 1 ∧ ¬ ConcatCompatible [[2, 3], [2]] 1
+    ∧ ¬ ConcatCompatible [[], []] 0
+    ∧ StackCompatible [[2, 3], [2, 3]] (-3) ∧ StackCompatible [[], []] (-1) ∧ ¬ StackCompatible [[3], [1]] 0
+    ∧ ¬ StackCompatible [[2, 3], [2, 3]] 3
+    ∧ CondCompatible [some [2], none, some [2]] ∧ ¬ CondCompatible [some [], some [1]] ∧ ¬ CondCompatible [] := by
+  refine ⟨⟨[2, 3], [[2, 4]], rfl, by decide, by decide, ?_⟩, ?_, ?_, ?_, ⟨[2, 3], [[2, 3]], rfl, by decide, by decide, ?_⟩,
+    ⟨[], [[]], rfl, by decide, by decide, ?_⟩, ?_, ?_, ⟨by decide, by decide⟩, ?_, fun h => h.1 rfl⟩
+  · intro s hs
+    simp only [List.mem_cons, List.not_mem_nil, or_false] at hs
+    rcases hs with rfl | rfl
+    · exact ⟨rfl, fun _ _ _ => rfl⟩
+    · refine ⟨rfl, fun i hi hne => ?_⟩
+      have h1 : normIdx [2, 3].length (-1) = 1 := by decide
+      rw [h1] at hne
+      have : i = 0 := by simp at hi; omega
+      subst this; rfl
+  · rintro ⟨s0, rest, hs, -, -, h⟩
+    simp only [List.cons.injEq] at hs
+    obtain ⟨rfl, rfl⟩ := hs
+    have := (h [1, 3] (by simp)).2 0 (by decide) (by decide)
+    simp at this
+  · rintro ⟨s0, rest, hs, -, -, h⟩
+    simp only [List.cons.injEq] at hs
+    obtain ⟨rfl, rfl⟩ := hs
+    have := (h [2] (by simp)).1
+    simp at this
+  · rintro ⟨s0, rest, hs, h1, h2, -⟩
+    simp only [List.cons.injEq] at hs
+    obtain ⟨rfl, rfl⟩ := hs
+    simp at h2
+  · intro s hs; simp at hs; rcases hs with rfl | rfl <;> rfl
+  · intro s hs; simp at hs; rcases hs with rfl | rfl <;> rfl
+  · rintro ⟨s0, rest, hs, -, -, h⟩
+    simp only [List.cons.injEq] at hs
+    obtain ⟨rfl, rfl⟩ := hs
+    have := h [1] (by simp)
+    simp at this
+  · rintro ⟨s0, rest, hs, -, h2, -⟩
+    simp only [List.cons.injEq] at hs
+    obtain ⟨rfl, rfl⟩ := hs
+    simp at h2
+  · rintro ⟨-, h⟩
+    have := h (some []) (by simp) (some [1]) (by simp)
+    simp at this
+
+/-- `PartialFits` / `¬ IntOutOfRange` inhabited: negative in-range int, a stepped slice; and the iff used in both directions -/
+theorem partial_fits_audit_instances :
+    PartialFits [3, 2] (.int (-1)) [2] ∧ ¬ IntOutOfRange [3, 2] (.int (-1)) ∧ IntOutOfRange [3] (.int 5)
+    ∧ PartialFits [5] (.slice (some 1) none (some 2)) [2]
+    ∧ partialCheck [3, 2] (.int (-1)) [2] = .ok ()
+    ∧ ¬ PartialFits [3, 2] (.int (-1)) [3] ∧ partialCheck [3, 2] (.int (-1)) [3] ≠ .ok () := by
+  have hno : ¬ IntOutOfRange [3, 2] (.int (-1)) := by
+    rintro ⟨i, n, rest, hi, hs, h⟩
+    simp only [Idx.int.injEq] at hi
+    simp only [List.cons.injEq] at hs
+    obtain ⟨rfl, -⟩ := hs
+    subst hi
+    omega
+  have hfit : PartialFits [3, 2] (.int (-1)) [2] := ⟨3, [2], rfl, by decide, by decide, rfl⟩
+  have hnfit : ¬ PartialFits [3, 2] (.int (-1)) [3] := by
+    rintro ⟨n, rest, hs, -, -, hb⟩
+    simp only [List.cons.injEq] at hs
+    obtain ⟨-, rfl⟩ := hs
+    simp at hb
+  refine ⟨hfit, hno, ⟨5, 3, [], rfl, rfl, by decide⟩, ⟨5, [], 2, rfl, by decide, rfl⟩,
+    (partial_ctor_rejects_iff_partial _ _ _ hno).2 hfit, hnfit,
+    fun h => hnfit ((partial_ctor_rejects_iff_partial _ _ _ hno).1 h)⟩
+
+/-- rank-0 corner cases of the two checks: a scalar bijection rejects a size-1 vector and vice versa; a scalar-event
+distribution takes every x as batch; a scalar condition shape `()` with batched conditions broadcasts -/
+theorem rank0_audit_instances :
+    wrapperCheck [] none [1] none = .error .valueError ∧ wrapperCheck [1] none [] none = .error .valueError ∧
+    wrapperCheck [] (some []) [] (some [1]) = .error .valueError ∧ wrapperCheck [] (some []) [] (some []) = .ok () ∧
+    distCheck [] none [4, 1] none = .ok [4, 1] ∧
+    distCheck [] (some []) [4, 1] (some [5]) = .ok [4, 5] ∧
+    distCheck [] (some []) [4] (some [5]) = .error .valueError ∧
+    distCheck [3] (some []) [3] (some [5]) = .ok [5] ∧
+    distSampleCheck [] (some []) [7] (some [5]) = .ok [7, 5] := by decide
+
+/-- the rejects-iff theorems used in the REJECT direction from the spec predicate alone -/
+theorem ctor_rejects_audit_instance :
+    (∀ r, concatenateCtor [[2, 3], [2]] [none, none] 1 ≠ .ok r) ∧
+    (∀ r, stackCtor [[3], [1]] [none, none] 0 ≠ .ok r) ∧
+    (∀ r, GenCtors.Stack.init [⟨[3], some []⟩, ⟨[3], some [1]⟩] 0 ≠ .ok r) := by
+  refine ⟨(concatenate_ctor_rejects_iff _ _ _).2 ?_, (stack_ctor_rejects_iff _ _ _).2 ?_,
+    (gen_stack_ctor_rejects_iff _ _).2 ?_⟩
+  · rintro ⟨⟨s0, rest, hs, -, -, h⟩, -⟩
+    simp only [List.cons.injEq] at hs
+    obtain ⟨rfl, rfl⟩ := hs
+    have := (h [2] (by simp)).1
+    simp at this
+  · rintro ⟨⟨s0, rest, hs, -, -, h⟩, -⟩
+    simp only [List.cons.injEq] at hs
+    obtain ⟨rfl, rfl⟩ := hs
+    have := h [1] (by simp)
+    simp at this
+  · rintro ⟨-, -, h⟩
+    have := h (some []) (by simp) (some [1]) (by simp)
+    simp at this
+
+/-- `gen_vmap_ctor_rejects_iff` from its right-hand side: conditional child (cond (2,)), broadcast parameters, axis_size 4,
+condition mapped along axis −1 ⇒ accepted, shape (4,3), cond_shape (2,4) -/
+theorem gen_vmap_ctor_audit_instance :
+    (GenCtors.Vmap.init ⟨[3], some [2], []⟩ none (some 4) (some (-1))).bind
+        (fun r => (GenCtors.Vmap.shape r.axis_size r.bijection).map (fun s => (s, r.cond_shape)))
+      = .ok ([4, 3], some [2, 4]) :=
+  (gen_vmap_ctor_rejects_iff _ _ _ _ _ _).2
+    ⟨4, Or.inl ⟨rfl, rfl⟩, rfl, Or.inr ⟨[2], -1, 1, rfl, rfl, by decide, by decide⟩⟩
+
+end Audit
+
 end C13
